@@ -82,6 +82,7 @@ class Result:
         self.outcomes = set()        # distinct observable outcomes (vacuity guard)
         self.caps = []
         self.notes = []
+        self.unreproduced = []       # in-process violations that no execution in a fresh process reproduces (fault unless violations are shown)
 
     def sample(self, s, cap=6):
         if len(self.samples) < cap:
@@ -122,6 +123,7 @@ class Result:
         self.outcomes |= other.outcomes
         self.caps += other.caps
         self.notes += [n for n in other.notes if n not in self.notes]
+        self.unreproduced += [u for u in getattr(other, "unreproduced", []) if u not in self.unreproduced][:3]
         return self
 
 
